@@ -19,8 +19,11 @@ T == Traces[tid]
 Ev == T.ev
 F == Faults(T.prog)
 
+\* a MissingParameters error names exactly the required parameters that are absent
+MissingOf(i) == Required(D(CName(T.prog[i]))) \ ArgNames(T.prog[i])
 MatchesFault(e, f) == /\ \E m \in 1..Len(f[1]) : f[1][m] = e.cls
                       /\ (f[4] = e.what \/ f[4] = "?" \/ f[4] = "")
+                      /\ (e.cls = "MissingParameters" => {e.params[k] : k \in 1..Len(e.params)} = MissingOf(f[2]))
 AtOk(e) == \E f \in F : MatchesFault(e, f) /\ e.at[1] = f[2] /\ (f[3] = "" \/ e.at[2] = f[3])
 
 \* an exception that rejects the program before execution
